@@ -61,6 +61,10 @@ def gen_case(seed, tier):
         fkinds = [cfg.choice(["u", "u", "s", "e"] if w >= 2 else ["u", "u", "s"]) for w in fields]
         shape = {"kind": "struct", "fields": fields, "fkinds": fkinds}
         width = sum(fields)
+        if cfg.random() < 0.4:
+            # a data.Struct class whose fields have default values: rows that `init` does not list start with the defaults, not 0
+            shape["defaults"] = [cfg.choice([(1 << (w - 1)), (1 << w) - 1, 0, 1]) if fk == "e" else cfg.randrange(1 << w)
+                                 for w, fk in zip(fields, fkinds)]
     depth = cfg.choice(DEPTHS)
     ninit = cfg.randint(0, depth)
     init = [cfg.randrange(1 << width) for _ in range(ninit)]
@@ -106,11 +110,14 @@ def gen_case(seed, tier):
                     a_, b_ = cfg.sample(["a", "b"], 2)
                     # a one-way rename, or a swap (every target is also a source: the mapping must be applied simultaneously)
                     wrap.append(["rename", {a_: b_} if cfg.random() < 0.5 else {a_: b_, b_: a_}])
+            elif cfg.random() < 0.25:
+                wrap.append(["enable_nrst", cfg.choice(doms)["name"]])
             else:
                 wrap.append([kind_w, cfg.choice(doms)["name"], nctl])
                 nctl += 1
     config = {"shape": shape, "depth": depth, "init": init, "domains": doms, "wports": wports, "rports": rports, "wrap": wrap}
     # an inserter's control wider than one bit: asserted when non-zero, for the memory's ports as for any register
+    config["decoy"] = fl.choice([0, 0, 1, 2, 3])       # another memory, with that many write ports, before this one in its module
     config["ctl_wide"] = ctl_wide = [k for k in range(nctl) if cfg.random() < 0.25]
     config["ctl_signed"] = [k for k in range(nctl) if k not in ctl_wide and cfg.random() < 0.15]      # signed(1): asserted when -1
 
@@ -146,7 +153,9 @@ def gen_case(seed, tier):
             r = wl.random()
             if r < p_row:
                 if wl.random() < 0.5:
-                    steps.append({"k": "row_wr", "a": wl.randrange(max(1, depth)), "v": wl.randrange(1 << width)})
+                    # (the value given to ctx.set() may lie outside the row's range: it wraps, as for a signal)
+                    steps.append({"k": "row_wr", "a": wl.randrange(max(1, depth)), "v": wl.randrange(1 << width),
+                                  "wrap": wl.choice([0, 0, 0, 1, -1])})
                 else:
                     steps.append({"k": "row_rd", "a": wl.randrange(max(1, depth))})
                 continue
@@ -248,6 +257,12 @@ def build(config):
         fields = {"f%d" % i: (unsigned(w) if fk[i] == "u" else signed(w) if fk[i] == "s" else enums[i])
                   for i, w in enumerate(sh["fields"])}
         shape = data.StructLayout(fields)
+        if sh.get("defaults"):
+            ns = {"__annotations__": dict(fields)}
+            for i, w in enumerate(sh["fields"]):
+                dv = sh["defaults"][i]
+                ns["f%d" % i] = dv if fk[i] == "u" else (to_signed(dv, w) if fk[i] == "s" else enums[i](to_signed(dv, w)))
+            shape = type("RowStruct", (data.Struct,), ns)
         def conv(raw):
             d = {}
             off = 0
@@ -263,6 +278,38 @@ def build(config):
     return mem, wps, rps
 
 
+def with_decoy(config, dut):
+    """`dut` preceded, in the same module, by another memory with write ports of its own (idle): whatever numbering the backend
+    gives to ports must be per memory"""
+    n = config.get("decoy")
+    if not n:
+        return dut
+    from amaranth.hdl import Module, Elaboratable
+    from amaranth.lib.memory import Memory
+    decoy = Memory(shape=3, depth=2, init=[5])
+    dn = config["domains"][0]["name"]
+    for _ in range(n):
+        decoy.write_port(domain=dn)
+    decoy.read_port(domain="comb")
+
+    class Both(Elaboratable):
+        def elaborate(self, platform):
+            m = Module()
+            m.submodules.decoy = decoy
+            m.submodules.dut = dut
+            return m
+    return Both()
+
+
+def default_row_of(config):
+    """bit pattern of a row that `init` does not list: the defaults of a data.Struct's fields, else 0"""
+    v = off = 0
+    for w, dv in zip(config["shape"].get("fields") or [], config["shape"].get("defaults") or []):
+        v |= dv << off
+        off += w
+    return v
+
+
 def build_dut(config):
     """-> (dut, mem, wps, rps, ctls): the memory wrapped in the configured Enable/Reset inserters and renamers"""
     from amaranth.hdl import Signal, EnableInserter, ResetInserter, DomainRenamer
@@ -272,6 +319,9 @@ def build_dut(config):
     for w in config.get("wrap", []):
         if w[0] == "rename":
             dut = DomainRenamer(dict(w[1]))(dut)
+        elif w[0] == "enable_nrst":
+            from amaranth.hdl import ResetSignal
+            dut = EnableInserter({w[1]: ~ResetSignal(w[1])})(dut)
         else:
             from amaranth.hdl import signed as _signed
             c = ctls.setdefault(w[2], Signal(_signed(1) if w[2] in config.get("ctl_signed", []) else
@@ -289,8 +339,12 @@ def port_eff(config, dom):
     for w in config.get("wrap", []):
         if w[0] == "rename":
             cur = w[1].get(cur, cur)
+            # a late-bound reset used as a control further in moves with its domain
+            gates = [["nrst", w[1].get(g[1], g[1])] if isinstance(g, list) else g for g in gates]
         elif w[0] == "enable" and w[1] == cur:
             gates.append(w[2])
+        elif w[0] == "enable_nrst" and w[1] == cur:
+            gates.append(["nrst", cur])        # enabled while the (late-bound) reset of the domain, as named here, is low
     return cur, gates
 
 
@@ -346,6 +400,7 @@ def run_case(case):
             ctx.set(Value.cast(mem.data[crash["a"] % depth]), crash["v"] & full if config["shape"]["kind"] not in ("signed", "enum") else 0)
             raise CrashInjected()
         procs = [crasher]
+    dut = with_decoy(config, dut)
     run = ManualRun(dut, domains, sched_mode=case["sched"]["mode"], sched_seed=case["sched"]["seed"], extra_lines=extra_lines,
                     processes=procs)
     gmasks = [granule_bits(config, w) for w in config["wports"]]
@@ -367,10 +422,15 @@ def run_case(case):
             sigs["ctl%d" % k] = c
         inp = {n: raw(drv.get(s)) if n.endswith(".data") else drv.get(s) for n, s in sigs.items()}
 
+        rst_lv = {d["name"]: 0 for d in config["domains"]}
+
         def gated(gates):
-            return all(inp["ctl%d" % g] for g in gates)
+            return all((not rst_lv[g[1]]) if isinstance(g, list) else inp["ctl%d" % g] for g in gates)
         rdata = [Value.cast(p.data) for p in rps]
-        rows = [[(config["init"][a] if a < len(config["init"]) else 0), full] for a in range(depth)]   # [value, known]
+        default_row = default_row_of(config)
+        if len(config["init"]) < depth and default_row:
+            P["rows_started_at_struct_defaults"] = 1
+        rows = [[(config["init"][a] if a < len(config["init"]) else default_row), full] for a in range(depth)]   # [value, known]
         rreg = [[0, 0] for _ in rps]          # sync read registers: [value, known]
         lv = {d["name"]: 0 for d in config["domains"]}
         sets_since = 0
@@ -416,6 +476,9 @@ def run_case(case):
                         F["glitch-in"] += 1
             elif k == "rst":
                 ch = {n + ".rst": lvl for n, lvl in st["l"].items() if n in lv}
+                for n, lvl in st["l"].items():
+                    if n in rst_lv:
+                        rst_lv[n] = lvl
                 if ch:
                     F["reset"] = F.get("reset", 0) + 1
                     if any(d.get("async") and st["l"].get(d["name"]) for d in config["domains"]):
@@ -426,12 +489,20 @@ def run_case(case):
                     v = st["v"] & full
                     row = Value.cast(mem.data[st["a"]])
                     sv = v - (1 << width) if (config["shape"]["kind"] in ("signed", "enum") and width and v >> (width - 1)) else v
+                    if st.get("wrap") and width:
+                        sv += st["wrap"] << width
+                        P["row_wr_out_of_range_value"] = P.get("row_wr_out_of_range_value", 0) + 1
                     drv.set(row, sv)
                     rows[st["a"]] = [v, full]
                     P["row_wr"] += 1
             elif k == "row_rd":
                 if st["a"] < depth:
-                    got = raw(drv.get(Value.cast(mem.data[st["a"]])))
+                    got0 = drv.get(Value.cast(mem.data[st["a"]]))
+                    signed_row = config["shape"]["kind"] in ("signed", "enum")
+                    lo_, hi_ = (-(1 << (width - 1)) if width else 0, (1 << (width - 1)) - 1 if width else 0) if signed_row else (0, full)
+                    if not (lo_ <= got0 <= hi_):
+                        raise Violation("row_read_out_of_range", idx, {"addr": st["a"], "got": got0, "row_shape": config["shape"]})
+                    got = raw(got0)
                     val, known = rows[st["a"]]
                     P["row_rd"] += 1
                     if (got ^ val) & known:
@@ -565,7 +636,7 @@ def run_case(case):
         def body2(drv):
             for a in range(depth):
                 got = raw(drv.get(Value.cast(mem.data[a])))
-                want = config["init"][a] if a < len(config["init"]) else 0
+                want = config["init"][a] if a < len(config["init"]) else default_row_of(config)
                 if got != want:
                     raise Violation("initial_contents_after_restart", len(case["steps"]),
                                     {"addr": a, "got": got, "declared": want})
